@@ -2,11 +2,12 @@
 # usage: try_seed.sh <patch.diff> <Cxx> [more property ids...]
 # applies a seeded change to a scratch copy of /repo's CURRENT tree (outside /repo and /verif), runs the given checks
 # against it, prints which rules fire, and removes the copy.
+ROOT="$(dirname "$(readlink -f "$0")")/.."; ROOT="$(readlink -f "$ROOT")"
 P="$(readlink -f "$1")"; shift
 D=$(mktemp -d /tmp/seedtry-XXXXXX)
 rsync -a --exclude target --exclude .git /repo/ "$D/repo/"
 cd "$D/repo" && git init -q . && git apply "$P" || { echo "PATCH DOES NOT APPLY"; rm -rf "$D"; exit 2; }
-cd /verif
+cd "$ROOT"
 for id in "$@"; do
   out=$(VERIF_REPO="$D/repo" ./check "$id" --tier quick 2>&1)
   rc=$?
@@ -14,4 +15,4 @@ for id in "$@"; do
   echo "$id exit=$rc rules: $rules"
 done
 rm -rf "$D"
-git -C /verif checkout -q -- evidence 2>/dev/null || true
+git -C "$ROOT" checkout -q -- evidence 2>/dev/null || true
